@@ -23,6 +23,7 @@ RULE = ("case = (corpus statement in its own dialect [harvested test-suite SQL +
         "Non-trivial = rewritten text differs from the original in at least one token inside the statement (not only the trailer) and "
         "the original analyses without error; distinct = distinct (original, rewritten text).")
 ASSUMPTIONS = [
+    "a rewritten text of more than 10000 sqlparse tokens is outside the input domain (sqlparse's own limit for statement splitting raises SQLParseError): discarded and counted",
     "sqlfluff's lexer decides token boundaries; rewritten texts that sqlfluff's parser rejects (quoting rewrite only) are discarded and counted",
     "display names of un-aliased expression columns (names that are not plain identifiers) are compared after deleting quotes, whitespace, comments and case",
     "only statements whose original analyses without exception are judged; an exception on the rewritten text is then a violation",
@@ -152,6 +153,18 @@ def judge(idx, edits, trailer, res, ctx, label):
     d = compare(base, view(new_sql, dialect))
     if d is None:
         return None
+    if d.get("exc", "").endswith("SQLParseError") and len(new_sql) > 5000:
+        # sqlparse (used for statement splitting) refuses texts of more than 10000 tokens: a size limit of the third-party lexer that the all-sites rewrite
+        # of a TPC-DS script can exceed; such rewritten texts are outside the input domain (counted)
+        import sqlparse
+
+        try:
+            ntok = sum(1 for _ in sqlparse.lexer.tokenize(new_sql))
+        except Exception:  # noqa
+            ntok = 0
+        if ntok > 10000:
+            res.discard("rewritten_text_exceeds_sqlparse_token_limit")
+            return None
     fid = classify(c, d)
     if fid and fid in ctx.active:
         res.known(fid, c)
